@@ -41,8 +41,16 @@ ASSUMPTIONS = [
 
 
 def _guard(ctx: Ctx) -> common.Guard:
-  gs = [g for g in common.thread_local_guards(ctx)
-        if g.qual.startswith('fiddle._src.building.')]
+  allg = common.thread_local_guards(ctx)
+  gs = [g for g in allg if g.qual.startswith('fiddle._src.building.')]
+  if not gs:
+    # kept in another module, building.py only holds an alias / import of it
+    bm = ctx.mod('fiddle._src.building')
+    moved = {common.relocated_global(ctx, f'{bm.name}.{n}')
+             for n in list(bm.assigns) + list(bm.imports)}
+    moved |= {ctx.p.resolve(x, bm) for f_ in bm.all_funcs
+              for x in ast.walk(f_.node) if isinstance(x, ast.Attribute)}
+    gs = [g for g in allg if g.qual in moved]
   if len(gs) != 1:
     raise AnalysisError(
         f'expected exactly one thread-local guard attribute in building.py, '
